@@ -317,9 +317,12 @@ def validate_cases(ctx, spec_dir, module, path, kind, cfg=None, libs=(), describ
     ctx.add_tlc(res2)
     if ok2:
         raise ToolError("rejection not reproducible in isolation (%s, event %d)" % (module, idx))
+    rej2["problems"] = [v for tag, v in res2.prints if tag == "PROBLEMS"]
     rec = {"what": "recorded execution is not a behaviour of %s" % module, "kind": kind,
            "rejected_event": rej2["event"], "event_index": rej2["idx"],
            "trace": hit if len(hit) <= 400 else hit[:rej2["idx"] + 1][-400:]}
+    if rej2["problems"]:
+        rec["problems"] = rej2["problems"]
     if describe:
         rec.update(describe(rej2, hit))
     ctx.violation(rec)
